@@ -153,6 +153,15 @@ func (eng *Engine) dirtyBlock(b *ssa.BasicBlock, scope scopeFn, d map[string]boo
 			case *ssa.MakeClosure:
 				eng.dirtyCall(callee.Fn.(*ssa.Function), c.Args, fresh, d)
 			default:
+				// a function value that cannot be a separator function: any function of identical signature may be the callee
+				if sig, ok := c.Value.Type().Underlying().(*types.Signature); ok && !sfShaped(sig) {
+					for _, f := range eng.funcsWithSig(sig) {
+						for k := range eng.dirtyFunc(f) {
+							d[k] = true
+						}
+					}
+					continue
+				}
 				// function value: closures created in this function; unknown ones modify nothing (A-SF)
 				for _, bb := range b.Parent().Blocks {
 					for _, x := range bb.Instrs {
